@@ -10,11 +10,16 @@ TEXT = {
  "C01": ("Coq theorems over executable models of all five caches: for every accepted configuration and every history the "
          "run returns Ok (no panic) and the reached state satisfies the capacity / partition bounds, holds each key in at most "
          "one partition, len() counts the distinct resident keys and is_empty() is true exactly when nothing is retained "
-         "(invariants proved by induction over the history). Models tied to /repo by differential execution on every run.",
+         "(invariants proved by induction over the history). For RawLRU on the pointer-level heap with calls into user code "
+         "as ticks (layer F, props/C01F.v): len <= cap also holds in the state every panic of a callback / Hash / Eq / destructor "
+         "leaves, hence in every state reachable through operations, such panics and resizes that finish. Models tied to /repo by "
+         "differential execution on every run (incl. RawLRU histories with one injected panic each).",
          "DESIGN.md §5 C01"),
  "C06": ("Coq theorems over an executable model of RawLRU: for every capacity and every history over the whole API the list is "
          "sorted by time of last use (invariant by induction over the history); eviction / peek_lru / remove_lru / get_lru take "
-         "the oldest entry, peek_mru / get_mru the newest, resize discards exactly the len-n oldest. The model is tied to /repo "
+         "the oldest entry, peek_mru / get_mru the newest, resize discards exactly the len-n oldest; the order does not look at the "
+         "values (props/C06Z.v: the key projection of the model is a simulation of an LRU set over keys alone), so a cache over a "
+         "zero-sized value type is replayed in the same model. The model is tied to /repo "
          "by differential execution (exhaustive closure of small capacities + random histories) on every run.",
          "DESIGN.md §5 C06"),
 }
